@@ -5,8 +5,9 @@
 //	H <limit> <mode> <op>;<op>;…   |  <obs>;<obs>;…
 //
 // mode: u = default size function (every entry has size 1), m<k> = sizeOf(v) = v mod k (k>=1, so
-// zero-size values occur), n<k> = sizeOf(v) = v mod k - 1 (negative sizes: outside the property,
-// compared with the model only).
+// zero-size values occur), n<k> = sizeOf(v) = v mod k - 1 (negative sizes: Size <= limit is not
+// demanded there, everything else is), b<k> = sizeOf(v) = v << k (sizes and limits up to 2^62-1:
+// the int64 sums c.size + valSize come within 2 of MaxInt64 without wrapping).
 // op:   p<key>:<val> Put, g<key> Get, h<key> Has, r<key> Remove, c Clear, l Len, s Size.
 // obs:  <result>/<callback log>/<Len>/<Size>/<heap>/<present>/<clock>
 //
@@ -95,6 +96,8 @@ func sizeFunc(mode string) func(int) int64 {
 		return func(v int) int64 { return int64(v % k) }
 	case 'n':
 		return func(v int) int64 { return int64(v%k) - 1 }
+	case 'b':
+		return func(v int) int64 { return int64(v) << uint(k) }
 	}
 	return nil
 }
@@ -124,9 +127,59 @@ func dump(c *cache.Cache[int, int]) string {
 	return h + "/" + p + "/" + strconv.FormatInt(clock, 10)
 }
 
+// stepFlags says, for one call, what the LRU store's heap looked like when the call started
+// (generator statistics only; from the hook dump).
+type stepFlags struct {
+	hit      bool // the call finds its key present and makes the store call heapq.Remove(pos)
+	interior bool // ... at an offset that is neither the root nor the last slot
+	trigger  bool // ... where the element of the last slot is older than the parent of pos: the F2 trigger
+	broken   bool // after the call some heap element is older than its parent
+}
+
+func heapBroken(heap []cache.VerifLRUEntry[int]) bool {
+	for i := 1; i < len(heap); i++ {
+		if heap[i].LastAccess < heap[(i-1)/2].LastAccess {
+			return true
+		}
+	}
+	return false
+}
+
+func flagsBefore(c *cache.Cache[int, int], o op, limit int64, sf func(int) int64) (f stepFlags) {
+	switch o.kind {
+	case 'g', 'r':
+	case 'p':
+		sz := int64(1)
+		if sf != nil {
+			sz = sf(o.val)
+		}
+		if sz > limit {
+			return
+		}
+	default:
+		return
+	}
+	heap, present, _, ok := cache.VerifLRUDump(c)
+	if !ok {
+		return
+	}
+	pos, in := present[o.key]
+	if !in || pos < 0 || pos >= len(heap) {
+		return
+	}
+	f.hit = true
+	n := len(heap) - 1
+	if pos == 0 || pos == n {
+		return
+	}
+	f.interior = true
+	f.trigger = heap[n].LastAccess < heap[(pos-1)/2].LastAccess
+	return
+}
+
 // runHistory returns the observations and, for the generator's statistics, the eviction log of
-// every op.
-func runHistory(limit int64, mode string, ops []op) (obs []string, evs [][][2]int) {
+// every op and the heap flags of every op.
+func runHistory(limit int64, mode string, ops []op) (obs []string, evs [][][2]int, flags []stepFlags) {
 	var c *cache.Cache[int, int]
 	var log [][2]int
 	if p := tr.Catch(func() {
@@ -136,11 +189,14 @@ func runHistory(limit int64, mode string, ops []op) (obs []string, evs [][][2]in
 		}
 		c = cache.New(limit, cfg)
 	}); p != "" {
-		return []string{"NEWPANIC"}, nil
+		return []string{"NEWPANIC"}, nil, nil
 	}
+	sf := sizeFunc(mode)
 	for _, o := range ops {
 		log = nil
 		var res string
+		var fl stepFlags
+		tr.Catch(func() { fl = flagsBefore(c, o, limit, sf) })
 		p := tr.Catch(func() {
 			switch o.kind {
 			case 'p':
@@ -185,6 +241,12 @@ func runHistory(limit int64, mode string, ops []op) (obs []string, evs [][][2]in
 		}
 		obs = append(obs, fmt.Sprintf("%s/%s/%d/%d/%s", res, ev, ln, sz, d))
 		evs = append(evs, log)
+		tr.Catch(func() {
+			if heap, _, _, ok := cache.VerifLRUDump(c); ok {
+				fl.broken = heapBroken(heap)
+			}
+		})
+		flags = append(flags, fl)
 	}
 	return
 }
@@ -201,7 +263,7 @@ func exec(in string) string {
 	}
 	var out string
 	if g := tr.Guard(5*time.Second, func() {
-		obs, _ := runHistory(limit, f[2], ops)
+		obs, _, _ := runHistory(limit, f[2], ops)
 		out = strings.Join(obs, ";")
 	}); g != "" {
 		return g
@@ -328,32 +390,64 @@ func emit(g *tr.G, limit int64, mode string, ops []op) {
 		sf = func(int) int64 { return 1 }
 	}
 	tags := map[string]bool{}
-	if mode[0] != 'n' && limit > 0 {
+	if limit <= 0 {
+		tags["bad-limit"] = true
+	} else {
+		switch mode[0] {
+		case 'n':
+			tags["negative-sizes"] = true
+		case 'b':
+			tags["big-sizes-near-int64"] = true
+		}
 		ref := &refLRU{limit: limit, size: sf}
-		_, evs := runHistory(limit, mode, ops)
+		_, evs, flags := runHistory(limit, mode, ops)
 		removed := false
 		for i, o := range ops {
 			present := ref.find(o.key) >= 0
+			isLRU := len(ref.ents) > 0 && ref.ents[0][0] == o.key
+			before := ref.total()
 			want, refused := ref.step(o)
 			switch o.kind {
 			case 'p':
 				if refused {
 					tags["put-refused"] = true
 				} else {
+					evicted := len(want)
+					if present {
+						evicted--
+					}
 					if sf(o.val) == 0 {
 						tags["zero-size-put"] = true
+						if before == limit {
+							tags["zero-size-put-into-full-cache"] = true
+						}
 					}
 					if sf(o.val) == limit {
 						tags["put-size-equals-limit"] = true
 					}
 					if present {
 						tags["put-replaces"] = true
+						if evicted > 0 {
+							tags["put-replaces-and-evicts"] = true
+						}
+						if isLRU {
+							tags["put-replaces-the-lru-entry"] = true
+							if evicted > 0 {
+								tags["put-replaces-the-lru-entry-and-evicts"] = true
+							}
+						}
 					}
-					if len(want) > 1 || (len(want) == 1 && !present) {
+					if evicted > 0 {
 						tags["put-evicts"] = true
 					}
-					if len(want) > 2 {
+					if evicted > 1 {
 						tags["put-evicts-several"] = true
+					}
+					if evicted > 0 && len(ref.ents) == 1 {
+						tags["put-evicts-everything"] = true
+					}
+					if ref.total() == limit {
+						tags["put-fills-to-the-limit"] = true
 					}
 					if removed {
 						tags["put-after-remove"] = true
@@ -376,12 +470,25 @@ func emit(g *tr.G, limit int64, mode string, ops []op) {
 				}
 				removed = false
 			}
+			if i < len(flags) {
+				if flags[i].interior {
+					tags["hit-at-interior-heap-offset"] = true
+				}
+				if flags[i].trigger {
+					tags["f2-trigger-fired"] = true
+				}
+				if flags[i].broken {
+					tags["heap-order-broken"] = true
+				}
+			}
 			if i < len(evs) && fmt.Sprint(evs[i]) != fmt.Sprint(want) && (len(evs[i]) > 0 || len(want) > 0) {
-				tags["victim-differs-from-lru"] = true
+				if o.kind == 'c' {
+					tags["clear-order-differs-from-lru"] = true
+				} else {
+					tags["victim-differs-from-lru"] = true
+				}
 			}
 		}
-	} else {
-		tags["negative-sizes-or-bad-limit"] = true
 	}
 	var tl []string
 	for t := range tags {
@@ -389,6 +496,50 @@ func emit(g *tr.G, limit int64, mode string, ops []op) {
 	}
 	sort.Strings(tl)
 	g.Emit(in, tags["put-after-remove"] || tags["get-after-remove"] || tags["remove-after-remove"] || tags["put-evicts"], tl...)
+}
+
+// genDisturbed aims at the states known finding F2 lives in (and any other defect of the victim
+// order after the heap has been disturbed): at least six entries, then bursts of Remove/Get/
+// replacing Put of keys that are probably present, alternating with bursts of Puts of fresh keys
+// (each of which evicts): a wrong victim needs a removal that leaves an old entry below a younger
+// parent and then enough evictions, without that entry being used, for it to become the oldest.
+func genDisturbed(r *tr.Rand, sh shape) []op {
+	ops := make([]op, 0, sh.n)
+	next := sh.nkeys
+	if int64(next) > sh.limit {
+		next = int(sh.limit)
+	}
+	for k := 0; k < next && len(ops) < sh.n; k++ {
+		ops = append(ops, op{kind: 'p', key: k, val: r.Intn(sh.maxval + 1)})
+	}
+	for len(ops) < sh.n {
+		for d := r.Range(1, 8); d > 0 && len(ops) < sh.n; d-- {
+			lo := next - int(sh.limit) - 1
+			if lo < 0 {
+				lo = 0
+			}
+			k := r.Range(lo, next-1)
+			switch x := r.Intn(100); {
+			case x < 40:
+				ops = append(ops, op{kind: 'r', key: k})
+			case x < 72:
+				ops = append(ops, op{kind: 'g', key: k})
+			case x < 92:
+				ops = append(ops, op{kind: 'p', key: k, val: r.Intn(sh.maxval + 1)})
+			case x < 96:
+				ops = append(ops, op{kind: 'h', key: k})
+			case x < 98:
+				ops = append(ops, op{kind: 's'})
+			default:
+				ops = append(ops, op{kind: 'l'})
+			}
+		}
+		for e := r.Range(1, 6); e > 0 && len(ops) < sh.n; e-- {
+			ops = append(ops, op{kind: 'p', key: next, val: r.Intn(sh.maxval + 1)})
+			next++
+		}
+	}
+	return ops
 }
 
 // allHistories enumerates every history of exactly n ops over the given alphabet.
@@ -459,5 +610,37 @@ func main() {
 				}
 				emit(g, sh.limit, sh.mode, genHistory(g.R, sh))
 			}
+			// the disturbed-heap states: 6..16 entries, Remove/Get/replacing Put of present keys
+			for i := 0; i < g.Scale(3000, 100000); i++ {
+				sh := shape{limit: int64(g.R.Range(6, 16)), n: g.R.Range(12, 70), mode: "u", maxval: 99}
+				sh.nkeys = int(sh.limit) + g.R.Range(0, 3)
+				if g.R.Chance(1, 4) {
+					// variable sizes 0..2 against a doubled limit: still many entries
+					sh.mode = "m3"
+					sh.limit *= 2
+				}
+				emit(g, sh.limit, sh.mode, genDisturbed(g.R, sh))
+			}
+			// sizes and limits next to the int64 range: limit <= 2^62-1, so c.size + valSize <= 2^63-2
+			const maxLim = int64(1)<<62 - 1
+			for i := 0; i < g.Scale(400, 8000); i++ {
+				k := g.R.Range(40, 55)
+				sh := shape{nkeys: g.R.Range(2, 8), n: g.R.Range(5, 40), mode: "b" + strconv.Itoa(k), maxval: 127}
+				switch g.R.Intn(3) {
+				case 0:
+					sh.limit = maxLim
+				case 1:
+					sh.limit = maxLim - int64(g.R.Intn(3))
+				default:
+					sh.limit = int64(g.R.Range(1, 127))<<uint(k) + int64(g.R.Intn(3)) - 1
+				}
+				if sh.limit > maxLim {
+					sh.limit = maxLim
+				}
+				emit(g, sh.limit, sh.mode, genHistory(g.R, sh))
+			}
+			// the boundary itself: two values of size 2^62-1... (63<<56 = 2^62 - 2^56; 127<<55 likewise)
+			emit(g, maxLim, "b55", []op{{kind: 'p', key: 0, val: 127}, {kind: 'p', key: 1, val: 127}, {kind: 's'}, {kind: 'p', key: 2, val: 1}, {kind: 's'}, {kind: 'l'}})
+			emit(g, maxLim, "b56", []op{{kind: 'p', key: 0, val: 63}, {kind: 'p', key: 1, val: 63}, {kind: 'p', key: 2, val: 63}, {kind: 's'}, {kind: 'g', key: 1}, {kind: 'p', key: 3, val: 62}, {kind: 's'}})
 		})
 }
